@@ -128,9 +128,9 @@ def _mk(name):
             extra = {
                 'dt': L0.dt,
                 'restart': bool(step.status.get('restart')),
-                'u0': L0.u[0].tobytes() if L0.u[0] is not None else None,
+                'u0': np.asarray(L0.u[0]).tobytes() if L0.u[0] is not None else None,
                 'u0_id': id(L0.u[0]),
-                'uend': L0.uend.tobytes() if L0.uend is not None else None,
+                'uend': np.asarray(L0.uend).tobytes() if L0.uend is not None else None,
                 'uend_id': id(L0.uend),
                 'riar': step.status.get('restarts_in_a_row'),
                 'dt_new': L0.status.dt_new,
@@ -461,6 +461,48 @@ def split_attempts(log):
     return attempts
 
 
+def resolve_fn(name):
+    import importlib
+
+    mod, _, fn = name.partition(':')
+    return getattr(importlib.import_module(mod), fn)
+
+
+def instrument_adaptivity(cur, ctrl):
+    """Observe (without changing) what the real adaptivity controllers use: the local error estimate and the arguments
+    of compute_optimal_step_size per (block, slot)."""
+    from pySDC.implementations.convergence_controller_classes.adaptivity import AdaptivityBase
+
+    cur.real_prop = {}
+    for C in ctrl.convergence_controllers:
+        if not isinstance(C, AdaptivityBase):
+            continue
+        cur.real_adaptivity = C
+
+        def wrap(C=C):
+            g_new, g_est, g_opt = C.get_new_step_size, C.get_local_error_estimate, C.compute_optimal_step_size
+
+            def get_new_step_size(controller, S, **kw):
+                cur._slot = S.status.slot
+                return g_new(controller, S, **kw)
+
+            def get_local_error_estimate(controller, S, **kw):
+                e = g_est(controller, S, **kw)
+                cur.est[(cur.block, S.status.slot)] = e
+                return e
+
+            def compute_optimal_step_size(beta, dt, e_tol, e_est, order):
+                out = g_opt(beta, dt, e_tol, e_est, order)
+                cur.real_prop[(cur.block, getattr(cur, '_slot', None))] = (beta, dt, e_tol, e_est, order, out)
+                return out
+
+            C.get_new_step_size = get_new_step_size
+            C.get_local_error_estimate = get_local_error_estimate
+            C.compute_optimal_step_size = compute_optimal_step_size
+
+        wrap()
+
+
 class CountingProblem(testequation0d):
     """testequation0d that counts its own eval_f / solve_system calls (ground truth for the work statistics)."""
 
@@ -493,15 +535,23 @@ class BlockRun:
         stats = None
         uend = None
         try:
-            cp, desc = build(cfg)
+            if cfg.get('factory'):
+                cp, desc = resolve_fn(cfg['factory'])(cfg)
+                cp['hook_class'] = [Recorder] + list(cp.get('hook_class', []))
+            else:
+                cp, desc = build(cfg)
             ctrl = ObservingController(num_procs=cfg['P'], controller_params=cp, description=desc)
             cur.controller = ctrl
             for S in ctrl.MS:
                 for L in S.levels:
                     cur.step_of_level[id(L)] = S
             P0 = ctrl.MS[0].levels[0].prob
-            u0 = P0.dtype_u(P0.init, val=1.0)
-            u0[:] = [1.0 + 0.25j, -0.5]
+            if cfg.get('factory'):
+                u0 = P0.u_exact(cfg['t0'])
+                instrument_adaptivity(cur, ctrl)
+            else:
+                u0 = P0.dtype_u(P0.init, val=1.0)
+                u0[:] = [1.0 + 0.25j, -0.5]
             cur.u0_bytes = u0.tobytes()
             cur.u0_obj = u0
             Tend = cfg['Tend'] if cfg['Tend'] is not None else cfg['t0'] + cfg['nblocks'] * cfg['P'] * cfg['dt']
